@@ -434,7 +434,7 @@ def _jobs_for(prop, tier):
         return [j for j in jobs_option_below(tier) if j[1][3] == 'combinations'] + jobs_combinations(tier) + jobs_axis0(tier, 'combinations')
     if prop == 'C03':
         return jobs_c03(tier) + jobs_option_reduce(tier) + jobs_axis(tier, ('reduce',)) + jobs_reduce_nonlocal(tier)
-    return {'C02': jobs_c02, 'C03': jobs_c03, 'C04': jobs_c04, 'C06': (lambda t: jobs_c06(t) + jobs_axis(t, ('sort', 'argsort')) + jobs_numpy_sort(t) + jobs_sort_nonlocal(t) + jobs_option_sort(t)), 'C08': (lambda t: jobs_c08(t) + jobs_numpy(t) + jobs_union(t) + jobs_reverse_merge(t) + jobs_record_merge(t) + jobs_list_merge(t) + [j for j in jobs_record_named(t) if j[0] is h_record_mergemany_named] + jobs_merge_union(t) + jobs_union_ops(t)), 'C17': (lambda t: jobs_c17(t) + jobs_record_keys(t)), 'C12': jobs_numpy, 'C10': (lambda t: jobs_c10(t) + [j for j in jobs_record_named(t) if j[0] is h_record_field_key] + jobs_project(t) + [j for j in jobs_option_below(t) if j[1][3] == 'getitem_field'] + jobs_record_setitem(t)), 'C05': jobs_c05, 'C09': jobs_c09}.get(prop, lambda t: [])(tier)
+    return {'C02': jobs_c02, 'C03': jobs_c03, 'C04': jobs_c04, 'C06': (lambda t: jobs_c06(t) + jobs_axis(t, ('sort', 'argsort')) + jobs_numpy_sort(t) + jobs_sort_nonlocal(t) + jobs_option_sort(t) + jobs_option_sort_above(t)), 'C08': (lambda t: jobs_c08(t) + jobs_numpy(t) + jobs_union(t) + jobs_reverse_merge(t) + jobs_record_merge(t) + jobs_list_merge(t) + [j for j in jobs_record_named(t) if j[0] is h_record_mergemany_named] + jobs_merge_union(t) + jobs_union_ops(t)), 'C17': (lambda t: jobs_c17(t) + jobs_record_keys(t)), 'C12': jobs_numpy, 'C10': (lambda t: jobs_c10(t) + [j for j in jobs_record_named(t) if j[0] is h_record_field_key] + jobs_project(t) + [j for j in jobs_option_below(t) if j[1][3] == 'getitem_field'] + jobs_record_setitem(t)), 'C05': jobs_c05, 'C09': jobs_c09}.get(prop, lambda t: [])(tier)
 
 
 # ------------------------------------------------------------------------------------------------ C01: getitem_next of list nodes
@@ -1191,7 +1191,7 @@ def h_sort_local(lens, arg):
             sret, selfp, negaxis, starts, parents, outlength, asc, stable = argv
         nm, info = nc.content_info(selfp, st, eng)
         seen.append(dict(pc=st.pc, info=info, negaxis=negaxis, parents=nc.index_terms(st.mem, parents, 'parents')[0], nstarts=st.mem.o[starts.obj].cells[starts.off + 40][0],
-                         outlength=outlength, asc=asc, stable=stable))
+                         starts=starts, mem=st.mem, outlength=outlength, asc=asc, stable=stable))
         k = z3.BitVec('k!', 64)
         nc._ret(st, sret, nc.fresh_content(eng, st, info['length'], z3.Lambda([k], S(k)), derived='sorted'))
         return None
@@ -1226,6 +1226,18 @@ def h_sort_local(lens, arg):
             for k, (a, w) in enumerate(zip(ob['parents'], want_par)):
                 obls.append(('parents[%d] is the list holding element %d' % (k, k), G(a != w)))
         obls.append(('one range per list', G(ob['nstarts'] != n)))
+        if arg and n:
+            # argsort answers positions inside each list: the content subtracts the start of the list, so the starts handed on must be positions in
+            # the content handed over (which begins at the first covered element), not in this node's own content
+            try:
+                sv = nc.index_terms(ob['mem'], ob['starts'], 'starts')[0]
+            except Unsupported:
+                sv = None
+            if sv is None or len(sv) != n:
+                obls.append(('the starts handed on can be read, one per list', g))
+            else:
+                for i in range(n):
+                    obls.append(('starts[%d] handed on is the position of list %d in the content handed over' % (i, i), G(sv[i] != sum(lens[:i]))))
         obls.append(('outlength is the number of lists', G(ob['outlength'] != n)))
         obls.append(('negaxis, ascending and stable are passed on unchanged', G(z3.Or(ob['negaxis'] != 1, ob['asc'] != 1, ob['stable'] != 1))))
     want, acc = [], 0
@@ -1246,7 +1258,8 @@ def h_sort_local(lens, arg):
             return False, 'content too long to replay', dict(offsets=ov)
         data = [(7 * k + 3) % 11 for k in range(lc)]
         inp = [data[ov[i]:ov[i + 1]] for i in range(n)]
-        prog = 'i64 %s listoffset64 %s %s 1 1 1' % (fullnative.ints(data), fullnative.ints(ov), 'argsort' if arg else 'sort')
+        # option-type values (none of them missing) for argsort: that is the content class that uses the starts handed on
+        prog = 'i64 %s %slistoffset64 %s %s 1 1 1' % (fullnative.ints(data), 'option64 %s ' % fullnative.ints(range(lc)) if arg else '', fullnative.ints(ov), 'argsort' if arg else 'sort')
         exp = [sorted(range(len(l)), key=lambda j: (l[j], j)) for l in inp] if arg else [sorted(l) for l in inp]
         return akrun_check(prog, exp, '%s(axis=1) of ListOffsetArray64(offsets=%s) over %s' % ('argsort' if arg else 'sort', ov, data))
     return mdischarge(nc.m, 'ListOffsetArray64::%s local lens=%s' % (what, ','.join(map(str, lens))), obls, [('non-zero offset origin', offs[0] > 0)] if n else [], replay=replay,
@@ -5126,3 +5139,126 @@ def jobs_axis_through_record(tier, meths):
                     for ax in (2, -1):
                         js.append((h_axis_through_record, (m_, ax, nf, outer), 1800))
     return js
+
+
+# ------------------------------------------------------------------------------------------------ C06: missing lists above the sorted axis
+@guard
+def h_option_sort_above(pattern, parents_c, arg, lens=None):
+    """IndexedOptionArray64::sort_next / argsort_next with the sorted axis strictly below the option (missing lists inside outer lists, sorted
+    along the innermost axis): the content is handed exactly the valid entries, in order; what it answers (one sorted list per valid entry, a
+    real ListOffsetArray64) goes back to the positions of those entries and every missing entry stays where it was - the level of the option is
+    untouched"""
+    pattern = tuple(map(bool, pattern))
+    parents_c = list(parents_c)
+    n = len(pattern)
+    valid = [i for i, m_ in enumerate(pattern) if not m_]
+    lens = list(lens) if lens is not None else [(2, 1, 0, 3)[k % 4] for k in range(len(valid))]
+    nc = NodeCtx(['IA', 'RA', 'LOA', 'NA', 'IDX', 'CNT', 'UTL', 'KD', 'IDS'], [], unwind=max(14, 3 * n + sum(lens) + 12))
+    seen = []
+    # the answer of the content: a list node over a second opaque leaf
+    kk = z3.BitVec('k!', 64)
+    BASE = 1 << 32
+    c0, l0 = nc.content0, nc.lencontent
+    leaflen = nc.m.bv('lenanswerleaf')
+    nc.m.assume(leaflen <= 2 ** 20)
+    nc.content0 = nc.new_content_in(nc.m.mem, 'answerleaf', leaflen, z3.Lambda([kk], kk + BASE), const=True)
+    nc.lencontent = leaflen
+    answer, ans_lists, ans_offs = build_listoffset64(nc, lens, name='answer')
+    nc.m.assume(ans_offs[0] == 0)
+    ans_lists = [[Elem(z3.simplify(e.val + BASE)) for e in lst] for lst in ans_lists]
+    nc.content0, nc.lencontent = c0, l0
+
+    def s_sort_next(eng, fr, ins, st, name, argv):
+        if arg:
+            sret, selfp, negaxis, starts, shifts, parents_, outl, asc, stb = argv
+        else:
+            sret, selfp, negaxis, starts, parents_, outl, asc, stb = argv
+        nm, info = nc.content_info(selfp, st, eng)
+        seen.append(dict(pc=st.pc, info=info, negaxis=negaxis, parents=nc.index_terms(st.mem, parents_, 'parents')[0], outlength=outl, asc=asc, stb=stb))
+        nc._ret(st, sret, answer)
+        return None
+    nc.m.eng.stubs['vf$slot%d' % nc.slot('12argsort_nextElRKNS_7IndexOfIlEES4_S4_lbb' if arg else '9sort_nextElRKNS_7IndexOfIlEES4_lbb')] = s_sort_next
+    # harness nodes carry no parameters
+    nc.m.eng.stubs['_ZNK7awkward7Content18purelist_parameterE*'] = nodeh.s_empty_string
+    nc.m.eng.stubs['_ZNK7awkward17ListOffsetArrayOfIlE18purelist_parameterE*'] = nodeh.s_empty_string
+    nc.m.eng.stubs.update(string_stubs(nc))
+    from .mbuild import cstring_stubs
+    nc.m.eng.stubs.update({k_: v_ for k_, v_ in cstring_stubs().items() if 'compare' in k_})
+    # argsort asks whether the answered lists can be merged with an array of integer positions (the positions of the missing values): lists and numbers cannot
+    nc.m.eng.stubs['_ZNK7awkward17ListOffsetArrayOfIlE9mergeableE*'] = lambda eng, fr, ins, st, name, argv: z3.BitVecVal(0, 1)
+    # the content is a list level above the leaves: branch_depth() = (false, 2); negaxis = 1 sorts the leaves
+    nc.m.eng.stubs['vf$slot%d' % nc.slot('12branch_depthEv')] = lambda eng, fr, ins, st, name, argv: [z3.BitVecVal(0, 8), BV(2)]
+    this, idx = build_option64(nc, pattern)
+    G = max(parents_c) + 1 if parents_c else 1
+    first_of = {g: min([i for i, p in enumerate(parents_c) if p == g] + [0]) for g in range(G)}
+
+    def index64(name, vals):
+        arr = z3.K(z3.BitVecSort(64), BV(0))
+        for i, v in enumerate(vals):
+            arr = z3.Store(arr, BV(i), BV(v))
+        d = nc.m.array(name + '_data', ('i', 64), max(1, len(vals)), const=True, arr=arr)
+        cells = {}
+        nc.index_cells(cells, 0, d, BV(0), BV(len(vals)))
+        return nc.m.record(name, cells, const=True)
+    parents, starts, shifts = index64('parents', parents_c), index64('starts', [first_of[g] for g in range(G)]), index64('shifts', [])
+    asc, stb = nc.m.bv('ascending', 1), nc.m.bv('stable', 1)
+    nc.m.record('ret', {})
+    what = 'argsort_next' if arg else 'sort_next'
+    cands = [f for mod_ in nc.m.eng.mods for f in mod_.func_src if f.startswith('_ZNK7awkward14IndexedArrayOfIlLb1EE%s' % ('12argsort_nextE' if arg else '9sort_nextE'))]
+    out = nc.m.call(cands[0], [Ptr('ret', 0), this, BV(1), starts] + ([shifts] if arg else []) + [parents, BV(G), asc, stb])
+    obls = [('%s does not raise' % what, out.raised), ('the content is asked', z3.Not(z3.Or([ob['pc'] for ob in seen] + [z3.BoolVal(False)])))]
+    for ob in seen:
+        g, info = ob['pc'], ob['info']
+        obls.append(('the content handed over holds exactly the valid entries', z3.And(g, info['length'] != len(valid))))
+        for k, i in enumerate(valid):
+            obls.append(('entry %d handed over is valid entry %d (position %d)' % (k, k, i), z3.And(g, z3.Select(info['atoms'], BV(k)) != idx[i])))
+        obls.append(('direction, stability and negaxis are handed on unchanged', z3.And(g, z3.Or(ob['asc'] != asc, ob['stb'] != stb, ob['negaxis'] != 1))))
+    want, k = [], 0
+    for i in range(n):
+        if pattern[i]:
+            want.append(NONE)
+        else:
+            want.append(ans_lists[k]); k += 1
+    for g, res in nodeh.decode_cases(nc, out.mem, nc.m.cell('ret', 0)):
+        if res is None:
+            obls.append(('a result is returned', z3.And(g, z3.Not(out.raised))))
+        else:
+            obls += [(nm, z3.And(g, c)) for nm, c in nodeh.compare_value(res, want)]
+
+    def replay(model, ent):
+        iv = [model.eval(x, model_completion=True).as_signed_long() for x in idx]
+        lc = max([model.eval(nc.lencontent, model_completion=True).as_signed_long(), 1] + [v + 1 for v in iv])
+        if lc > 40:
+            return False, 'content too long to replay', {}
+        a_ = z3.is_true(model.eval(asc == 1, model_completion=True))
+        # content entry k: the list [(7k + 3j + 5) % 11 for j < (k % 3) + 1]
+        rows = [[(7 * k_ + 3 * j + 5) % 11 for j in range(k_ % 3 + 1)] for k_ in range(lc)]
+        flat = [x for r in rows for x in r]
+        oo, acc = [0], 0
+        for r in rows:
+            acc += len(r); oo.append(acc)
+        counts = [sum(1 for p in parents_c if p == gi) for gi in range(G)]
+        go, acc = [0], 0
+        for c in counts:
+            acc += c; go.append(acc)
+        entries = [None if v < 0 else rows[v] for v in iv]
+        prog = 'i64 %s listoffset64 %s option64 %s listoffset64 %s %s 2 %d 1' % (fullnative.ints(flat), fullnative.ints(oo), fullnative.ints(iv), fullnative.ints(go), 'argsort' if arg else 'sort', 1 if a_ else 0)
+
+        def one(l):
+            if l is None:
+                return None
+            if arg:
+                return sorted(range(len(l)), key=lambda j: ((l[j] if a_ else -l[j]), j))
+            return sorted(l, reverse=not a_)
+        exp = [[one(l) for l in entries[go[gi]:go[gi + 1]]] for gi in range(G)]
+        return akrun_check(prog, exp, '%s(axis=2, ascending=%s) of outer lists %s of option-type lists %s' % ('argsort' if arg else 'sort', a_, counts, entries))
+    return mdischarge(nc.m, 'IndexedOptionArray64::%s above the sorted axis pattern=%s groups=%s' % (what, ''.join('N' if p else 'v' for p in pattern), parents_c), obls, [], replay=replay,
+                      prefer=[nc.lencontent <= 8],
+                      extra=dict(bounds='%d entries, missing pattern, groups and answered list lengths %s concrete (case split), index values, direction and stability symbolic' % (n, lens)))
+
+
+def jobs_option_sort_above(tier):
+    q = [((0, 1, 0), (0, 0, 0)), ((0, 0, 1, 0, 0), (0, 0, 0, 1, 1)), ((1, 0), (0, 1))]
+    if tier != 'quick':
+        q += [((0, 0, 1, 0, 0), (0, 0, 0, 0, 1)), ((1, 0), (0, 0)), ((0, 0), (0, 1)), ((1, 1), (0, 1)), ((0, 1, 0, 1, 0, 0), (0, 0, 1, 1, 2, 2)), ((0,), (0,)), ((1,), (0,)), ((1, 0, 0, 1), (0, 1, 2, 2))]
+    return [(h_option_sort_above, (pat, par, a), 1800) for pat, par in q for a in (False, True)]
